@@ -32,8 +32,8 @@ RULE = (
     "nested block references of POINTs (depth <= 4) vs product of the real per-level matrix44s, and level-by-level expansion = path product; "
     "X6 upright() attribute flips.  non-trivial = non-default frame / non-similar or mirrored matrix / nesting depth > 1; distinct by hash of "
     "the request.  oracle: own WCS parametrisation before/after on the real code, see module docstring; a failing input is keyed "
-    "<cause>/<api>/<type>/<aspect>/<matrix class>/<hash>, cause derived from the INPUT (e.g. plane-shear, neg-thickness) so that listed "
-    "findings do not hide other failures of the same entity type."
+    "<cause>/<api>/<type>/<aspect>/<matrix class>/<hash>, cause derived from the INPUT and the failing aspect (e.g. plane-shear, "
+    "neg-thickness: the constellations of the 13 defects this check found, all fixed in /repo now) so that a regression is named."
 )
 TRUSTED_BASE = [
     "py2lean translator + the two AST splits (transform_extrusion after OCS(), InsertCoordinateSystem.transform before from_ocs) in this file",
@@ -48,10 +48,11 @@ ASSUMPTIONS = [
     "HATCH ellipse edge angles are read as ezdxf reads them (real angles, parameter = atan2(sin a / ratio, cos a))",
 ]
 OPEN = [
-    "uniform_detected_iff is false on the unchanged tree (C12-F1): counterexample uniform_flag_ignores_angle + uniform_detected_iff_partial",
-    "thickness_vector_law is false for thickness <= 0 (C12-F2/F3): thickness_negative_flips, thickness_zero_raises + thickness_vector_law_partial",
-    "insert_transform_law is false for rotated references (C12-Fa = C15-F1): insert_rotated_counterexample; the general statement is proved as "
-    "the representation theorem insert_matrix_law, its hypotheses are established for the code's scale extraction by example / correspondence only",
+    "insert_transform_law (general): proved as the representation theorem insert_matrix_law; that the scale extraction of the "
+    "regenerated InsertCoordinateSystem kernel satisfies its hypotheses is proved on examples (unrotated, rotated 90 degrees, rotated + "
+    "mirrored with base point) and otherwise tied by correspondence X4 only (the generated term is too large for case analysis)",
+    "arc span test: modelled by a trigonometry-free predicate (|sin| <= 1e-7) instead of isclose(span, rel_tol=1e-8); semicircle probe "
+    "direction differs (1 rad vs rational); both corresponded outside the stated bands",
     "not proved: rytz ellipse axis reconstruction, text / MTEXT orientation, DIMENSION / MLINE / HATCH edge internals, atan2 / isclose numerics",
 ]
 
@@ -1852,10 +1853,15 @@ ICS = "#ics-scales"
 
 
 def _split_ics(src: str) -> str:
-    """InsertCoordinateSystem.transform(m, tol): the translated kernel is the body between `ocs = OCS(self.extrusion)`
-    (becomes the parameter `ocs`) and the construction of the result (`OCSTransform.from_ocs(...)`, which needs OCS(uz) and
-    atan2): it returns (x_scale, y_scale, z_scale, uz).  `raise InsertTransformationError` is mapped to ValueError (the
-    modelled error enum); any other shape of the function is refused."""
+    """InsertCoordinateSystem.transform(m, tol): the translated kernel is the body between the construction of the two
+    rotated axes and the construction of the result:
+      * `ocs = OCS(self.extrusion)` becomes the parameter `ocs`;
+      * `angle = math.radians(self.rotation)`, `Vec3.from_angle(angle)` and `Vec3.from_angle(angle + math.pi / 2.0)` become the
+        parameters `rot_x`, `rot_y` (the model passes (c, s, 0) and (-s, c, 0) for the rotation (c, s));
+      * the tail `ocs_transform = OCSTransform.from_ocs(...)`; `return InsertCoordinateSystem(...)` (needs OCS(uz) and atan2) is
+        replaced by `return (x_scale, y_scale, z_scale, uz)`;
+      * `raise InsertTransformationError` is mapped to ValueError (the modelled error enum).
+    Any other shape of the function is refused (the model has to be revisited then)."""
     import ast
     from translate.py2lean import Unsupported
     tree = ast.parse(src)
@@ -1865,20 +1871,26 @@ def _split_ics(src: str) -> str:
             for n in c.body:
                 if isinstance(n, ast.FunctionDef) and n.name == "transform":
                     body = [st for st in n.body if not (isinstance(st, ast.Expr) and isinstance(st.value, ast.Constant))]
-                    ok = (len(body) > 3 and ast.unparse(body[0]) == "ocs = OCS(self.extrusion)"
-                          and ast.unparse(body[-2]) == "ocs_transform = OCSTransform.from_ocs(OCS(self.extrusion), OCS(uz), m)"
-                          and isinstance(body[-1], ast.Return)
-                          and ast.unparse(body[-1].value).replace(" ", "").startswith("InsertCoordinateSystem(insert=ocs_transform.transform_vertex(self.insert),scale=(x_scale,y_scale,z_scale),rotation=ocs_transform.transform_deg_angle(self.rotation),extrusion=uz"))
+                    head = [ast.unparse(st) for st in body[:4]]
+                    ok = (len(body) > 6 and head == [
+                        "ocs = OCS(self.extrusion)",
+                        "angle = math.radians(self.rotation)",
+                        "x_axis = ocs.to_wcs(Vec3.from_angle(angle))",
+                        "y_axis = ocs.to_wcs(Vec3.from_angle(angle + math.pi / 2.0))"]
+                        and ast.unparse(body[-2]) == "ocs_transform = OCSTransform.from_ocs(OCS(self.extrusion), OCS(uz), m)"
+                        and isinstance(body[-1], ast.Return)
+                        and ast.unparse(body[-1].value).replace(" ", "").startswith("InsertCoordinateSystem(insert=ocs_transform.transform_vertex(self.insert),scale=(x_scale,y_scale,z_scale),rotation=ocs_transform.transform_deg_angle(self.rotation),extrusion=uz"))
                     if not ok:
                         raise Unsupported("InsertCoordinateSystem.transform changed its shape: the model must be revisited")
-                    new = body[1:-2] + [ast.parse("return (x_scale, y_scale, z_scale, uz)").body[0]]
+                    new = (ast.parse("x_axis = ocs.to_wcs(rot_x)\ny_axis = ocs.to_wcs(rot_y)").body + body[4:-2]
+                           + [ast.parse("return (x_scale, y_scale, z_scale, uz)").body[0]])
                     for st in ast.walk(ast.Module(body=new, type_ignores=[])):
                         if isinstance(st, ast.Raise):
                             if not ast.unparse(st.exc).startswith("InsertTransformationError"):
                                 raise Unsupported("unexpected raise in InsertCoordinateSystem.transform")
                             st.exc = ast.parse("ValueError()").body[0].value
                     n.body = new
-                    n.args.args = [n.args.args[0], ast.arg("ocs")] + n.args.args[1:]
+                    n.args.args = [n.args.args[0], ast.arg("ocs")] + n.args.args[1:] + [ast.arg("rot_x"), ast.arg("rot_y")]
                     n.args.defaults = []
                     done = True
     if not done:
@@ -1917,7 +1929,7 @@ def kernel_defs(read):
         ("extrusionCore", TT + CORE, "transform_extrusion", [("ocs", ocs()), ("m", "m44")]),
         ("icsScales", TT + ICS, "InsertCoordinateSystem.transform",
          [("self", ("obj", "InsertCoordinateSystem", {"scale_factor_x": "rat", "scale_factor_y": "rat", "scale_factor_z": "rat"})),
-          ("ocs", ocs()), ("m", "m44"), ("tol", "rat")]),
+          ("ocs", ocs()), ("m", "m44"), ("tol", "rat"), ("rot_x", "v3"), ("rot_y", "v3")]),
     ]
     return [translate(prog, path, q, ps, lean_name=nm, max_paths=256) for nm, path, q, ps in ks]
 
@@ -2151,7 +2163,9 @@ def corr_insert(ctx):
         if abs(m_det(m)) < 1e-9:
             continue
         fr_ = ocs_axes(n)
-        rows = [vnorm(m_dir(m, ax)) for ax in fr_]
+        c_, s_ = _cs(a["rotation"])
+        own = (vadd(vmul(fr_[0], c_), vmul(fr_[1], s_)), vadd(vmul(fr_[0], -s_), vmul(fr_[1], c_)), fr_[2])  # the reference's axes
+        rows = [vnorm(m_dir(m, ax)) for ax in own]
         dots = [abs(vdot(rows[i], rows[j])) for i, j in ((0, 1), (0, 2), (1, 2))]
         if any(ABS_TOL / 100 < x < ABS_TOL * 100 for x in dots):
             ctx.hist("X4 InsertCoordinateSystem.transform / Insert.matrix44", "regenerated-in-decision-band")
@@ -2182,36 +2196,39 @@ def corr_insert(ctx):
 
 
 def corr_nested(ctx):
-    """clean nested documents of POINT entities (no constellation of the listed INSERT findings, which the model of the
-    expansion deliberately does not copy: it is the specification the oracle tests against)"""
+    """nested documents of POINT entities (rotated / tilted / mirrored / non-uniformly scaled references, MINSERT grids,
+    depth <= 4): real recursive expansion vs the model's product of the real per-level `Insert.matrix44()`"""
     r = ctx.rng("corr/nested")
     out = []
-    for _ in range(ctx.n(500, 4000)):
-        rec = gen_nested(r, clean=True)
+    for k in range(ctx.n(500, 4000)):
+        rec = gen_nested(r, clean=(k % 3 == 0))
         for b in rec["blocks"]:
             b["ents"] = [x for x in b["ents"] if x["t"] == "INSERT"] + [{"t": "POINT", "a": {"location": EG(r).p3()}} for _ in range(r.randint(1, 2))]
         doc, top = build_nested(rec)
-        exp = []
-        expected_flat(doc, top, IDENT, set(), 0, exp)
-        if any(f for _, f, _ in exp):
-            ctx.hist("X5 nested references", "skipped:constellation-of-a-listed-finding")
-            continue
+
+        def cells(ins):
+            return list(ins.multi_insert()) if ins.mcount > 1 else [ins]
 
         def tree(ins):
             blk = doc.blocks.get(ins.dxf.name)
-            kids = [tree(e) if e.dxftype() == "INSERT" else "P " + frs(v3(e.dxf.location)) for e in blk]
+            kids = []
+            for e in blk:
+                kids += [tree(c) for c in cells(e)] if e.dxftype() == "INSERT" else ["P " + frs(v3(e.dxf.location))]
             return f"R {frs(list(ins.matrix44()))} {len(kids)} " + " ".join(kids)
 
         def flat(ins, acc):
-            for ve in ins.virtual_entities():
-                if ve.dxftype() == "INSERT":
-                    flat(ve, acc)
-                else:
-                    acc.append(v3(ve.dxf.location))
+            for cell in cells(ins):
+                for ve in cell.virtual_entities():
+                    if ve.dxftype() == "INSERT":
+                        flat(ve, acc)
+                    else:
+                        acc.append(v3(ve.dxf.location))
         pts = []
         flat(top, pts)
+        tops = cells(top)
+        root = f"R {frs(mat16(IDENT))} {len(tops)} " + " ".join(tree(c) for c in tops)
         ctx.hist("X5 nested references", f"depth{len(rec['blocks'])}")
-        out.append(("|".join(["nest", tree(top), ok(*(pts + pts)), "1/1000000000"]), "agree", len(rec["blocks"]) > 1))
+        out.append(("|".join(["nest", root, ok(*(pts + pts)), "1/1000000000"]), "agree", len(rec["blocks"]) > 1))
     return out
 
 
